@@ -523,7 +523,13 @@ def correspond(R, header, report_fn, cases, name, point, shard=400, timeout=900)
         parts = row.split()
         m, s, i, cls = parts[0], parts[1], parts[2], parts[3]
         R.count(c['key'], c['nontrivial'])
-        if m == '1':
+        if m == '1' and s == '1' and i == '0':
+            # the modelled layer matches, yet the property-level oracle fails on the implementation: the part of the code the
+            # model abstracts (e.g. the generated class as a function of the argument map) does not behave as assumed
+            found += 1
+            R.violation('%s: the property-level oracle fails on the implementation for this input: %s' % (point, c.get('oracle_fail') or ''),
+                        {'recipe': c['recipe'], 'row': row, 'correspondence': point, 'input_found': True, 'oracle': c.get('oracle_fail')})
+        elif m == '1':
             if s == '0':
                 if cls != '-' and cls in kf:
                     R.known(cls)
